@@ -21,6 +21,7 @@ import (
 	pythoncommon "github.com/microsoft/yardl/tooling/internal/python/common"
 	"github.com/microsoft/yardl/tooling/pkg/dsl"
 	"github.com/microsoft/yardl/tooling/pkg/packaging"
+	"gopkg.in/yaml.v3"
 )
 
 var primitives = []dsl.PrimitiveDefinition{
@@ -115,6 +116,85 @@ func jsonKindShapes() map[string]string {
 	return res
 }
 
+// typeStructure renders the dsl.Type tree exactly as the YAML front end builds it (cases and dimensionality of every
+// GeneralizedType are kept apart, nothing is flattened the way the JSON marshalling does).
+func typeStructure(t dsl.Type) any {
+	switch t := t.(type) {
+	case nil:
+		return nil
+	case *dsl.SimpleType:
+		args := []any{}
+		for _, a := range t.TypeArguments {
+			args = append(args, typeStructure(a))
+		}
+		return map[string]any{"simple": t.Name, "args": args}
+	case *dsl.GeneralizedType:
+		cases := []any{}
+		for _, c := range t.Cases {
+			cases = append(cases, map[string]any{"tag": c.Tag, "type": typeStructure(c.Type)})
+		}
+		var dim any
+		switch d := t.Dimensionality.(type) {
+		case nil:
+			dim = nil
+		case *dsl.Vector:
+			if d.Length != nil {
+				dim = map[string]any{"vector": *d.Length}
+			} else {
+				dim = map[string]any{"vector": nil}
+			}
+		case *dsl.Array:
+			if d.Dimensions == nil {
+				dim = map[string]any{"array": nil}
+			} else {
+				ds := []any{}
+				for _, x := range *d.Dimensions {
+					e := map[string]any{}
+					if x.Name != nil {
+						e["name"] = *x.Name
+					}
+					if x.Length != nil {
+						e["length"] = *x.Length
+					}
+					ds = append(ds, e)
+				}
+				dim = map[string]any{"array": ds}
+			}
+		case *dsl.Map:
+			dim = map[string]any{"map": typeStructure(d.KeyType)}
+		case *dsl.Stream:
+			dim = map[string]any{"stream": true}
+		}
+		return map[string]any{"cases": cases, "dim": dim}
+	}
+	return map[string]any{"unknown": fmt.Sprintf("%T", t)}
+}
+
+// types reads one YAML value per line (a type in any spelling) and prints the structure the front end builds for it.
+func types() {
+	sc := bufio.NewScanner(os.Stdin)
+	sc.Buffer(make([]byte, 1<<20), 1<<20)
+	w := bufio.NewWriter(os.Stdout)
+	defer w.Flush()
+	for sc.Scan() {
+		var node yaml.Node
+		res := map[string]any{}
+		if err := yaml.Unmarshal([]byte(sc.Text()), &node); err != nil || len(node.Content) != 1 {
+			res["error"] = fmt.Sprintf("yaml: %v", err)
+		} else {
+			t, err := dsl.UnmarshalTypeYAML(node.Content[0])
+			if err != nil {
+				res["error"] = err.Error()
+			} else {
+				res["type"] = typeStructure(t)
+			}
+		}
+		b, _ := json.Marshal(res)
+		w.Write(b)
+		w.WriteString("\n")
+	}
+}
+
 // names reads identifiers from stdin (one per line) and prints, per line, the derived identifiers of each backend.
 func names() {
 	sc := bufio.NewScanner(os.Stdin)
@@ -124,16 +204,16 @@ func names() {
 	for sc.Scan() {
 		s := sc.Text()
 		res := map[string]string{
-			"in":             s,
-			"snake":          recovered(func() string { return formatting.ToSnakeCase(s) }),
-			"pascal":         recovered(func() string { return formatting.ToPascalCase(s) }),
-			"cpp_field":      recovered(func() string { return cppcommon.FieldIdentifierName(s) }),
-			"cpp_computed":   recovered(func() string { return cppcommon.ComputedFieldIdentifierName(s) }),
-			"cpp_namespace":  recovered(func() string { return cppcommon.NamespaceIdentifierName(s) }),
-			"py_field":       recovered(func() string { return pythoncommon.FieldIdentifierName(s) }),
-			"py_computed":    recovered(func() string { return pythoncommon.ComputedFieldIdentifierName(s) }),
-			"py_enumvalue":   recovered(func() string { return pythoncommon.EnumValueIdentifierName(s) }),
-			"matlab_field":   recovered(func() string { return matlabcommon.FieldIdentifierName(s) }),
+			"in":            s,
+			"snake":         recovered(func() string { return formatting.ToSnakeCase(s) }),
+			"pascal":        recovered(func() string { return formatting.ToPascalCase(s) }),
+			"cpp_field":     recovered(func() string { return cppcommon.FieldIdentifierName(s) }),
+			"cpp_computed":  recovered(func() string { return cppcommon.ComputedFieldIdentifierName(s) }),
+			"cpp_namespace": recovered(func() string { return cppcommon.NamespaceIdentifierName(s) }),
+			"py_field":      recovered(func() string { return pythoncommon.FieldIdentifierName(s) }),
+			"py_computed":   recovered(func() string { return pythoncommon.ComputedFieldIdentifierName(s) }),
+			"py_enumvalue":  recovered(func() string { return pythoncommon.EnumValueIdentifierName(s) }),
+			"matlab_field":  recovered(func() string { return matlabcommon.FieldIdentifierName(s) }),
 		}
 		b, _ := json.Marshal(res)
 		w.Write(b)
@@ -143,7 +223,7 @@ func names() {
 
 func main() {
 	if len(os.Args) < 2 {
-		fmt.Fprintln(os.Stderr, "usage: yardl-verif tables|names")
+		fmt.Fprintln(os.Stderr, "usage: yardl-verif tables|names|types")
 		os.Exit(2)
 	}
 	switch strings.ToLower(os.Args[1]) {
@@ -151,6 +231,8 @@ func main() {
 		tables()
 	case "names":
 		names()
+	case "types":
+		types()
 	default:
 		fmt.Fprintln(os.Stderr, "unknown command")
 		os.Exit(2)
